@@ -24,7 +24,7 @@ DEFAULT_TTL = 3600
 class JobM:
     __slots__ = ("jobid", "serial", "channel", "priority", "payload", "deadline", "ttl",
                  "state", "holder", "result", "error", "info", "finished_at", "fin_ttl",
-                 "deliveries", "requeues", "ttl_uncertain")
+                 "deliveries", "requeues", "ttl_uncertain", "ttl_observed", "drop", "waited")
 
     def __init__(self, jobid, serial, channel, priority, payload, deadline, ttl):
         self.jobid = jobid
@@ -44,6 +44,9 @@ class JobM:
         self.deliveries = 0
         self.requeues = 0
         self.ttl_uncertain = False
+        self.ttl_observed = False
+        self.drop = False
+        self.waited = False
 
     @property
     def key(self):
@@ -69,6 +72,7 @@ class QsModel:
         self.sim = sim
         self.whitebox = whitebox
         self.own = own  # the property whose check is running (None: every class is fatal)
+        self._ttl_pending = []
         self.foreign_seen = {}
         self.jobs = {}  # id -> current incarnation (present in the server's table)
         self.count = 0
@@ -119,15 +123,56 @@ class QsModel:
     server_started_at = None
     OVERDUE_GRACE = 60.0
 
+    def _reconcile_drops(self):
+        """A finished job marked by qdrop leaves the table at the moment a client's wait on it
+        completes - inside waitjobs' loop, which may be well before that client's response when
+        it waits for several jobs.  The instant is resolved by looking at the server's table;
+        the disappearance is legitimate only for a finished, drop-marked job somebody waits (or
+        waited) for."""
+        if self.sim is None:
+            return
+        cand = [j for j in self.jobs.values() if j.drop and j.state == "d" and j.waited]
+        if not cand:
+            return
+        try:
+            table = self.sim.workq.id2job
+        except AttributeError:
+            return
+        for j in cand:
+            srv = table.get(j.jobid)
+            if srv is None or getattr(srv, "serial", None) != j.serial:
+                if self.jobs.get(j.jobid) is j:
+                    del self.jobs[j.jobid]
+                    self.probe("dropped-after-wait")
+
     def _event(self):
         self._check_pending_immediate()
+        self._reconcile_drops()
         self.event_no += 1
         if self.restarted and self.server_started_at is None and self.sim is not None:
             self.server_started_at = self.sim.clock.time()
 
+    def _observe_ttl(self):
+        """Right after the server executed a finishing event: read the time-to-live it gave the
+        jobs that just finished (an implementation constant for failed jobs).  From then on it
+        is the job's time-to-live; it must not shrink later."""
+        if not self._ttl_pending or self.sim is None:
+            return
+        pend, self._ttl_pending = self._ttl_pending, []
+        try:
+            table = self.sim.workq.id2job
+            for j in pend:
+                srv = table.get(j.jobid)
+                if srv is not None and getattr(srv, "serial", None) == j.serial and isinstance(getattr(srv, "ttl", None), (int, float)):
+                    j.fin_ttl = srv.ttl
+                    j.ttl_observed = True
+        except AttributeError:
+            pass
+
     def _finish(self, j, now, result=None, error=None, fin_ttl=None):
         if j.state == "d":
             return False
+        self._ttl_pending.append(j)
         j.state = "d"
         j.holder = None
         j.result = result
@@ -210,6 +255,7 @@ class QsModel:
                 if len(waiters) >= 2:
                     self.probe("push-while-2+-waiters-blocked")
         if a.get("wait"):
+            j.waited = True
             self.waits[conn] = [j]
             self.expect[conn] = (self.event_no, "wait", [j])
         else:
@@ -268,6 +314,16 @@ class QsModel:
         j.info.update(a.get("info") or {})
         self.expect[conn] = (self.event_no, "value", None)
 
+    def x_qdrop(self, conn, a, now):
+        # "mark jobs to be dropped when they are waited for": the next client that has waited
+        # for such a job takes it out of the table
+        for jid in a.get("jobids", []):
+            j = self.jobs.get(jid)
+            if j is not None:
+                j.drop = True
+                self.probe("drop-marked" + ("-finished" if j.state == "d" else ""))
+        self.expect[conn] = (self.event_no, "value", None)
+
     def x_qinfo(self, conn, a, now):
         j = self.jobs.get(a.get("jobid"))
         self.expect[conn] = (self.event_no, "info", j)
@@ -278,6 +334,8 @@ class QsModel:
         if any(j is None for j in js):
             self.expect[conn] = (self.event_no, "error", None)
             return
+        for j in js:
+            j.waited = True
         self.waits[conn] = js
         self.expect[conn] = (self.event_no, "wait", js)
 
@@ -285,6 +343,8 @@ class QsModel:
         self.expect[conn] = (self.event_no, "stats", None)
 
     def on_resp(self, conn, rpc, args, payload, now):
+        self._observe_ttl()
+        self._reconcile_drops()
         exp = self.expect.pop(conn, None)
         # immediate = written in the same atomic step as the request's execution (no other
         # request, timer or disconnect was processed in between)
@@ -322,6 +382,7 @@ class QsModel:
                 self._fail("R-wait", f"wait response shape: {res!r}")
             for j, g in zip(js, got):
                 self._cmp_snapshot(j, g, "R-snap", "wait result")
+            # (jobs marked by qdrop leave the table inside waitjobs; see _reconcile_drops)
             self.probe("wait-released" + ("-immediately" if immediate else "-later"))
         elif kind == "stats":
             self._resp_stats(res)
@@ -429,6 +490,7 @@ class QsModel:
                     self._finish(j, now, error="timeout")
 
     def on_tick_done(self, kind, now):
+        self._observe_ttl()
         if kind == "watchdog":
             self.after_watchdog(now)
 
@@ -451,8 +513,9 @@ class QsModel:
                     # the time-to-live the server itself applies to this finished job (the
                     # properties only say "dropped after its time-to-live", not how long it is)
                     obs = getattr(srv, "ttl", None)
-                    if isinstance(obs, (int, float)):
+                    if isinstance(obs, (int, float)) and not j.ttl_observed:
                         j.fin_ttl = obs
+                        j.ttl_observed = True
                 continue
             if j.state != "d":
                 self._fail("R-final", f"unfinished job {j.tag()} is no longer known to the server under its id "
@@ -498,6 +561,7 @@ class QsModel:
     # ---- quiescent-point invariants -------------------------------------------
     def at_quiescence(self):
         self._check_pending_immediate()
+        self._reconcile_drops()
         # no lost wake-up: a blocked puller and an eligible unheld job cannot coexist
         for conn, channels in self.pulls.items():
             elig = self._eligible(channels)
